@@ -110,7 +110,7 @@ impl C01 {
                 ctx.count("load:Ok");
                 let before = ctx.counters.iter().filter(|(k, _)| k.starts_with("accessors:")).map(|(_, v)| *v).sum::<u64>();
                 let whole = !cfg!(miri) || mix(idx) % 8 == 0;
-                let opts = Opts { debug: !cfg!(miri) || mix(idx) % 4 < 2, debug_whole: whole };
+                let opts = Opts { debug: !cfg!(miri) || mix(idx) % 4 < 2, debug_whole: whole, strict_extent: false };
                 let mut tr = Tr::new(false, false);
                 let mut ex = Ex { reg: &reg, tr: &mut tr, opts: &opts };
                 ex.mbi(ctx, &bi, mem);
@@ -132,7 +132,7 @@ impl C01 {
         ctx.case_desc = Some(J::obj(vec![("sub", J::s("standalone-tag")), ("kind", J::u(typ as u64)), ("corruptions", J::s(label)), ("tag", J::S(hex_trunc(&t, 200)))]));
         let reg = Region::new_slack(ctx.placement, &t, sized_view_size(typ).unwrap_or(0));
         ctx.eval();
-        let opts = Opts { debug: !cfg!(miri) || idx % 3 == 0, debug_whole: false };
+        let opts = Opts { debug: !cfg!(miri) || idx % 3 == 0, debug_whole: false, strict_extent: false };
         let mut tr = Tr::new(false, false);
         let before = ctx.counters.get("standalone:accessors").copied().unwrap_or(0);
         exercise::standalone(ctx, &reg, &mut tr, &opts, &t);
